@@ -27,6 +27,7 @@ from props.common import MAXF, is_rejection, mkgeom
 
 ID = "C20"
 RULE = (
+    "[octave] one block: every box with edges among the band edges and their geometric middles of an 8-band octave frequency axis (irregular spacing) x time edges among bin edges and middles, both dimension orders; model: bins [bin(start), bin(end)) per axis by bisection. "
     "case = template (nt x nf, dimension order, axis configuration, contents) x geometry list (bin units) x "
     "options (values form, fill, dtype); every case is run with all_touched False and True. Full products and "
     "deviation-bounded parts are listed in bounds. A case is non-trivial when, for all_touched=False, the model "
